@@ -11,11 +11,15 @@ def build(P):
     P.verify(E.SE + "StateEngine.start_execution", R.start_execution_contract(), tags=("C09",))
     P.verify(E.SE + "StateEngine.end_execution", R.end_execution_contract(), tags=("C09",))
     P.verify(E.SE + "StateEngine.change_state", tags=("C09",))
+    from contracts import api as A
+    for w in ("asyncio", "blocking"):
+        c = A.get_execution_history_api(w)
+        P.verify(c.key, c, tags=("C09",), timeout=30, label="GetExecutionHistory[%s]" % w, obl_prefix=w + ".GetExecutionHistory")
     P.explanation = ("update_execution_history on its real body: an event is appended at the end with id = length + 1 and "
                      "previousEventId = id - 1, earlier events untouched, timestamp a (monotone) clock read, details attached, "
                      "EXPRESS stores nothing; start_execution logs ExecutionStarted (history reset first); end_execution logs "
                      "exactly one terminal event that agrees with the record, before the notification; change_state logs "
-                     "StateExited with the output before the transition.")
+                     "StateExited with the output before the transition; GetExecutionHistory (both front ends) never writes the "
+                     "stored list and answers a copy of it, or with reverseOrder exactly its reverse.")
     P.not_decided = ["nothing appended after the terminal event; cross-event ordering (histories over schedules)",
-                     "StateEntered suppression on retry / Map re-entry lives in the body of notify (not yet under contract)",
-                     "reverseOrder in GetExecutionHistory (REST layer) not yet under contract"]
+                     "StateEntered suppression on retry / Map re-entry lives in the body of notify (not yet under contract)"]
